@@ -30,6 +30,10 @@ func NewValueFromString(typ Type, data string) (Value, error) {
 		if err := json.Unmarshal([]byte(data), &number); err != nil {
 			return nil, err
 		}
+		if number == nil {
+			// the JSON text null decodes into a nil pointer without error
+			return nil, errors.New("invalid number: null")
+		}
 		value = number
 	case TypeMonetary:
 		parts := strings.SplitN(data, " ", 2)
